@@ -142,7 +142,13 @@ class Ctx:
         self.notes = []
         self.workers = int(os.environ.get('VERIF_JOBS', '16'))
     def scale(self, quick, thorough):
-        return thorough if self.tier == 'thorough' else quick
+        if self.tier == 'thorough':
+            return thorough
+        # the source differs from the fingerprint the model was written against (tools/fingerprint.py): the quick tier
+        # spends three times its budget (never more than the thorough tier); this alone is never an alarm
+        if getattr(self, 'changed_units', None) and thorough > quick:
+            return min(thorough, quick * 3)
+        return quick
     def count(self, key, n=1):
         self.stats[key] = self.stats.get(key, 0) + n
     def case(self, key, nontrivial=True):
@@ -225,6 +231,16 @@ def main_check(prop, tier, seed, replay=None):
     known, fixed = load_known(prop)
     ctx.known, ctx.fixed = known, fixed
     ctx.model_ok = prep.get('driver_ok', False)
+    try:
+        sys.path.insert(0, os.path.join(VERIF, 'tools'))
+        import fingerprint
+        ctx.changed_units = fingerprint.diff(REPO)
+    except Exception:
+        ctx.changed_units = ['<fingerprint not computable>']
+    if ctx.changed_units:
+        log('[%s] source differs from the recorded fingerprint in %d unit(s): %s -- larger budget' % (
+            prop, len(ctx.changed_units), ', '.join(ctx.changed_units[:6])))
+        ctx.notes.append('source differs from the recorded fingerprint (larger quick budget): ' + ', '.join(ctx.changed_units[:20]))
     try:
         mod.run(ctx)
     except Exception:
